@@ -145,7 +145,7 @@ def gen_spec(rng):
         for _ in range(rng.choice([1, 1, 2])):
             cs.append(gen_source(rng, k, F, for_cache=True))
             k += 1
-        c = {'id': 'c%d' % ci, 'sources': cs, 'transparent': rng.random() < 0.7, 'opacity': None}
+        c = {'id': 'c%d' % ci, 'sources': cs, 'opacity': None}
         if rng.random() < 0.2:
             c['opacity'] = rng.choice([0.3, 0.6])
         caches.append(c)
@@ -271,7 +271,7 @@ def source_conf(s, d, twin, idx, for_cache=False):
 
 def build(spec, d, twin):
     os.makedirs(d, exist_ok=True)
-    conf = scenario.base_conf()
+    conf = scenario.base_conf(image={'jpeg_quality': JPEG_QUALITY})
     conf['services'] = {'wms': {'srs': [SRS], 'image_formats': list(FORMATS.values()), 'md': {'title': 'c14'},
                                 'concurrent_layer_renderer': spec['clr']}}
     conf['grids']['g'] = {'srs': SRS, 'bbox': list(WORLD), 'tile_size': [TILE, TILE], 'res': GRID_RES, 'origin': 'll'}
@@ -284,9 +284,9 @@ def build(spec, d, twin):
             conf['sources'][s['id']] = source_conf(s, d, twin, idx, for_cache=True)
             idx += 1
         cc = {'grids': ['g'], 'sources': [s['id'] for s in c['sources']], 'format': 'image/png',
-              'request_format': 'image/png', 'image': {'transparent': bool(c['transparent'])}}
+              'request_format': 'image/png'}
         if c.get('opacity') is not None:
-            cc['image']['opacity'] = c['opacity']
+            cc['image'] = {'opacity': c['opacity']}
         conf['caches'][c['id']] = cc
     conf['sources']['ztop'] = {'type': 'wms', 'req': {'url': 'http://ttop/service?', 'layers': 'blank', 'transparent': True,
                                                        'format': 'image/png'}}
@@ -315,8 +315,9 @@ def res_visible(obj, res):
     return True
 
 
-def draw_items(spec, layer_names, res):
-    """ordered list of (item id, via) that the configuration says is drawn for LAYERS=layer_names at resolution res"""
+def draw_items(spec, layer_names, res, notes=None):
+    """ordered list of (item id, via) that the configuration says is drawn for LAYERS=layer_names at resolution res;
+    notes (a set) receives 'layer_res_hidden' / 'group_layer_res_hidden' when a layer's own min/max_res hides it"""
     byname = {node['name']: node for node, par in walk(spec['tree'])}
     out = []
 
@@ -324,6 +325,8 @@ def draw_items(spec, layer_names, res):
         if node.get('sources'):
             # a layer with own sources draws these (they replace the children's); its min/max_res applies
             if not res_visible(node, res):
+                if notes is not None:
+                    notes.add('group_layer_res_hidden' if node.get('layers') else 'layer_res_hidden')
                 return
             multi = len(node['sources']) > 1
             for it in node['sources']:
@@ -398,7 +401,7 @@ def reference(spec, req):
     steps = 0
     direct_names = []        # upstream layer names of direct sources that are drawn (for pruning observation)
     drawn = 0
-    for it, via in draw_items(spec, req['layers'], res):
+    for it, via in draw_items(spec, req['layers'], res, feats):
         if it in srcs:
             f, d, ft, st = source_picture(srcs[it], bbox, size, res)
             if f is not None and 'cov_touch' not in ft:
@@ -416,7 +419,9 @@ def reference(spec, req):
                     st += sst
             if len(c['sources']) > 1:
                 ft.add('cache_multi')
-            f = compose.compose(subs, size, None if c['transparent'] else (255, 255, 255))
+            # a cache with an opaque source holds opaque tiles (canvas white); the sources of caches have no coverage /
+            # resolution range here, so the canvas only matters when every source is transparent
+            f = compose.compose(subs, size, None if all(cs['transparent'] for cs in c['sources']) else (255, 255, 255))
             f = compose.from_u8(compose.to_u8(f))       # stored as 8-bit tile
             st += 1
             if c.get('opacity') is not None:
@@ -471,36 +476,54 @@ def fetch(sc, req, extra_top):
     return compose.to_u8(f), None, calls
 
 
-def compare(u8, exp, mask, req, tol):
-    """-> (ok, text, stats) ; exp is an F-image; for non-transparent requests alpha of the answer must be 255"""
+JPEG_QUALITY = 90
+LOSSY = {'png8': (72, 0.99, 14.0), 'jpeg': (40, 0.98, 6.0)}     # (level, share of pixels within it, mean) -- calibrated
+
+
+def jpeg_roundtrip(f):
+    """what a baseline JPEG encoder of the configured quality makes of the reference picture (the encoder is not the
+    subject of C14; without this the chroma subsampling of 2-pixel stripes would need a useless tolerance)"""
+    import io
+    from PIL import Image
+    b = io.BytesIO()
+    Image.fromarray(np.ascontiguousarray(compose.to_u8(f)[..., :3]), 'RGB').save(b, 'jpeg', quality=JPEG_QUALITY)
+    b.seek(0)
+    out = compose.from_u8(np.asarray(Image.open(b).convert('RGB')))
+    return out
+
+
+def compare(u8, exp, mask, req, tol, pair=False):
+    """-> (ok, text, stats); exp is an F-image. Colour premultiplied by alpha, alpha as such; a non-transparent request has
+    an opaque reference, so an answer with alpha < 255 fails through the alpha difference"""
+    fmt = req['format']
+    if fmt == 'jpeg' and not pair:
+        exp = jpeg_roundtrip(exp)
     dcol, da = compose.diff_premultiplied(u8, exp)
-    if not req['transparent']:
-        # the answer has to be opaque; an alpha channel that is not 255 shows up in `da` (exp alpha is 1)
-        pass
-    d = np.maximum(dcol, da)
-    if req['format'] == 'jpeg':
-        d = dcol        # jpeg has no alpha
+    d = dcol if fmt == 'jpeg' else np.maximum(dcol, da)
     n = int(mask.sum())
     if n == 0:
         return True, '', {'n': 0}
     dm = d[mask]
-    if req['format'] in ('png', 'tiff'):
+    if fmt in ('png', 'tiff'):
+        lim = tol
         ok = bool((dm <= tol).all())
-    elif req['format'] == 'png8':
-        ok = bool((dm <= 72).mean() >= 0.99 and dm.mean() <= 14)
     else:
-        ok = bool((dm <= 80).mean() >= 0.97 and dm.mean() <= 14)
+        lim, share, mean = LOSSY[fmt]
+        ok = bool((dm <= lim).mean() >= share and dm.mean() <= mean)
     stats = {'n': n, 'max': float(dm.max()), 'mean': float(dm.mean())}
+    if os.environ.get('C14_STATS') and fmt not in ('png', 'tiff'):
+        with open(os.environ['C14_STATS'], 'a') as fh:
+            fh.write('%s %d %d %.2f %.2f %.4f %.4f %.4f\n' % (fmt, pair, n, dm.max(), dm.mean(), (dm <= 24).mean(), (dm <= 40).mean(),
+                                                          (dm <= 72).mean()))
     if ok:
         return True, '', stats
-    bad = np.argwhere(mask & (d > (tol if req['format'] in ('png', 'tiff') else 72)))
+    bad = np.argwhere(mask & (d > lim))
     if len(bad) == 0:
         bad = np.argwhere(mask & (d == dm.max()))
     r, c = bad[0]
     e8 = compose.to_u8(exp)
-    txt = '%d of %d judged pixels differ by more than the tolerance (max %.1f, mean %.2f); first at (row %d, col %d): got RGBA %r, reference %r' % (
-        int((dm > (tol if req['format'] in ('png', 'tiff') else 72)).sum()), n, dm.max(), dm.mean(), r, c,
-        tuple(int(v) for v in u8[r, c]), tuple(int(v) for v in e8[r, c]))
+    txt = '%d of %d judged pixels differ by more than %d levels (max %.1f, mean %.2f); first at (row %d, col %d): got RGBA %r, reference %r' % (
+        int((dm > lim).sum()), n, lim, dm.max(), dm.mean(), r, c, tuple(int(v) for v in u8[r, c]), tuple(int(v) for v in e8[r, c]))
     return False, txt, stats
 
 
@@ -560,7 +583,7 @@ def evaluate(scp, sct, spec, req):
         if not ok2:
             res['txt'].append('defeated vs reference: ' + t)
     if u1 is not None and u2 is not None:
-        okp, t, st = compare(u1, compose.from_u8(u2), np.ones_like(mask), req, tol)
+        okp, t, st = compare(u1, compose.from_u8(u2), np.ones_like(mask), req, tol, pair=True)
         if not okp:
             res['txt'].append('plain vs defeated: ' + t)
     res['no_image'] = (u1 is None) or (u2 is None)
